@@ -319,7 +319,7 @@ def gen_tt2qtt_int(rng):
 def run(ctx):
     quick = ctx.tier == 'quick'
     lib.stage_proof(ctx, PROP_FILES, ['Check/C02.vo'])
-    n_corr = 60 if quick else 600
+    n_corr = 60 if quick else 1200
     cases, metas = [], []
     for fn in OPS:
         mult = 4 if fn is op_tensordot else 1
@@ -366,7 +366,7 @@ def run(ctx):
         return False
     bad = lib.stage_correspondence(ctx, 'ops', REQ, 'check_C02', cases, metas, on_disagree=search, show_fn='run_C02')
 
-    n_side = 60 if quick else 1500
+    n_side = 60 if quick else 4500
     if bad:
         n_side *= 5
     for fn in OPS + SIDE_ONLY:
